@@ -7,6 +7,8 @@ package vfsnotify
 import (
 	"sync"
 	"time"
+
+	"github.com/oauth2-proxy/oauth2-proxy/v7/verifx/sched"
 )
 
 // Op mirrors fsnotify.Op.
@@ -67,6 +69,12 @@ var (
 // NewWatcher never fails and uses no OS resource.
 func NewWatcher() (*Watcher, error) {
 	w := &Watcher{Events: make(chan Event), Errors: make(chan error)}
+	if sched.Controlled() {
+		// created by a controlled thread: the event loop will wait in the scheduler (vrt.Sel), which
+		// sees an event only if it is buffered; Push never blocks
+		w.Events = make(chan Event, 64)
+		w.Errors = make(chan error, 64)
+	}
 	regMu.Lock()
 	watchers = append(watchers, w)
 	if len(watchers) > 64 {
@@ -128,4 +136,16 @@ func (w *Watcher) Deliver(ev Event, seconds int) bool {
 	case <-t.C:
 		return false
 	}
+}
+
+// Push queues one event for a watcher that was created under the scheduler (buffered channels)
+// and is a scheduling point for the calling thread. It reports false if the queue is full.
+func (w *Watcher) Push(ev Event) bool {
+	select {
+	case w.Events <- ev:
+	default:
+		return false
+	}
+	sched.Point("fs-event")
+	return true
 }
